@@ -263,6 +263,9 @@ def run(chk, prog):
         for role, stride in (("n", S.N ** 2), ("x", S.N), ("y", sp.Integer(1))):
             if sp.expand(c_ - stride) == 0:
                 lv[role] = L
+    for L in dout.loops:
+        if L.name == "n" and "n" not in lv:
+            lv["n"] = L         # the loop over all bunches (by its bound), whatever it does to the index
     A.require({"n", "x", "y"} <= set(lv), "FokkerPlanckMap::apply: loops n,x,y not found")
     y = lv["y"].sym
     jl = [L for L in h.loops if all(L is not lv[r_] for r_ in "nxy")]
